@@ -219,8 +219,8 @@ example : (relay (fun i => if i == 0 then ⟨true, 1, 0, 0, true, false⟩ else 
 /-! ## the whole trace -/
 
 /-- A fresh node and the empty ghost history are related. -/
-theorem rel_init (c : Codec) (t0 : Int) (h0 : 0 < t0) (pf : Bool) (dA dB dC : Int) :
-    Rel c (specInit [dA, dB, dC]) (initNode t0 pf dA dB dC) t0 :=
+theorem rel_init (c : Codec) (t0 : Int) (h0 : 0 < t0) (pf sr tr : Bool) (durs : Nat → Int) :
+    Rel c (specInit (dursList durs)) (initNode t0 pf sr tr durs) t0 :=
   { isOpen := rfl, files := rfl, cur := (by simp [initNode, start, openLog, specInit, encFile_nil]),
     curSize := (by simp [specInit, encFile_nil]), torn := rfl,
     intact := (by intro g hg; simp [ghostAll, specInit] at hg), sorted := (by simp [specInit]),
@@ -228,7 +228,7 @@ theorem rel_init (c : Codec) (t0 : Int) (h0 : 0 < t0) (pf : Bool) (dA dB dC : In
     lastLe := (by simp [initNode, start, openLog]), incr := (by simp [ghostAll, specInit]),
     tsLe := (by intro g hg; simp [ghostAll, specInit] at hg), curLe := (by intro g hg; simp [specInit] at hg),
     named := (by intro f hf; simp [specInit] at hf), pos := rfl, conn := rfl, durs := rfl, dropped := rfl,
-    rel0 := rfl, rel1 := rfl, rel2 := rfl }
+    rel := (fun _ => rfl) }
 
 /-- **step_meets_spec.**  From related states, every operation of the node — at a time later than everything
     before, on peer A, B or C — produces observed steps the specification accepts, and leaves related states. -/
@@ -244,7 +244,7 @@ theorem step_meets_spec (c : Codec) (limit : Nat) (sp : SpecSt) (n : Node) (t : 
   | timer now => exact step_timer c limit sp n t now (ht now rfl) hr
   | ack p v => exact step_ack c limit sp n t p v (by simpa [Op.peerOk] using hp) hr
   | recv p ts => exact step_recv c limit sp n t p ts (by simpa [Op.peerOk] using hp) hr
-  | crashStart now => exact step_crashStart c limit sp n t now (ht now rfl) hr
+  | crashStart now sr tr => exact step_crashStart c limit sp n t now sr tr (ht now rfl) hr
 
 /-
   FULL STATEMENT (false of the unchanged code, F-C12c): the model's trace satisfies the WHOLE specification, i.e.
@@ -258,7 +258,8 @@ theorem step_meets_spec (c : Codec) (limit : Nat) (sp : SpecSt) (n : Node) (t : 
 -/
 
 /-- **model_trace_meets_spec_partial** (the whole property on the model, except confirmation_not_beyond_received).  For every payload encoding, every rotation
-    threshold, every configuration (which of the two zone members is master, the three log_durations), and every
+    threshold, every configuration (which of the two zone members is master, in which order the two endpoints of the child
+    zone and of the parent zone are visited, the six log_durations), and every
     finite sequence of events (any security object), connects, disconnects, ReplayLog runs, rotations, clean-up
     timer runs, log-position acknowledgements, incoming messages and crash-restarts of the sender, under a virtual
     clock that advances by at least 1 µs per timed operation: the trace the model node produces satisfies the
@@ -268,11 +269,11 @@ theorem step_meets_spec (c : Codec) (limit : Nat) (sp : SpecSt) (n : Node) (t : 
     the receiver filter and the acknowledgement are exact.
     (Crash points that cut `current` inside a frame are covered per file by `truncation_tolerant`/`damage_tolerant`;
     equal timestamps are excluded by the clock hypothesis, see `replay_exact_counterexample`.) -/
-theorem model_trace_meets_spec_partial (c : Codec) (limit : Nat) (t0 : Int) (h0 : 0 < t0) (pf : Bool) (dA dB dC : Int)
+theorem model_trace_meets_spec_partial (c : Codec) (limit : Nat) (t0 : Int) (h0 : 0 < t0) (pf sr tr : Bool) (durs : Nat → Int)
     (ops : List Op) (hc : ClockOK t0 ops) :
-    specTrace (specInit [dA, dB, dC]) (runModel c limit (initNode t0 pf dA dB dC) ops) 0 = none := by
+    specTrace (specInit (dursList durs)) (runModel c limit (initNode t0 pf sr tr durs) ops) 0 = none := by
   suffices h : ∀ (ops : List Op) (sp : SpecSt) (n : Node) (t : Int) (i : Nat), Rel c sp n t → ClockOK t ops →
-      specTrace sp (runModel c limit n ops) i = none from h ops _ _ t0 0 (rel_init c t0 h0 pf dA dB dC) hc
+      specTrace sp (runModel c limit n ops) i = none from h ops _ _ t0 0 (rel_init c t0 h0 pf sr tr durs) hc
   intro ops
   induction ops with
   | nil => intro sp n t i _ _; rfl
@@ -299,15 +300,21 @@ theorem timer_confirmation_sound (c : Codec) (limit : Nat) (sp : SpecSt) (n : No
   subst hst
   simp only [confirmStep, Node.peerList, List.map_cons, List.map_nil]
   rw [if_neg]
-  simp only [List.any_cons, List.any_nil, Bool.or_false, Bool.or_eq_true, not_or]
-  have hr : ∀ p, p < 3 → rpos sp.pos p = (n.peers p).rpos := fun p hp => by rw [h.pos, rpos_pos n p hp]
-  refine ⟨?_, ?_, ?_⟩
+  simp only [allPeers, List.any_cons, List.any_nil, Bool.or_false, Bool.or_eq_true, not_or]
+  have hr : ∀ p, p < 6 → rpos sp.pos p = (n.peers p).rpos := fun p hp => by rw [h.pos, rpos_pos n p hp]
+  refine ⟨?_, ?_, ?_, ?_, ?_, ?_⟩
   · rw [hr 0 (by omega)]
     by_cases hc : ((n.peers 0).connected && (n.peers 0).rpos != 0) = true <;> simp [timerSetPos, hc, setPosValues]
   · rw [hr 1 (by omega)]
     by_cases hc : ((n.peers 1).connected && (n.peers 1).rpos != 0) = true <;> simp [timerSetPos, hc, setPosValues]
   · rw [hr 2 (by omega)]
     by_cases hc : ((n.peers 2).connected && (n.peers 2).rpos != 0) = true <;> simp [timerSetPos, hc, setPosValues]
+  · rw [hr 3 (by omega)]
+    by_cases hc : ((n.peers 3).connected && (n.peers 3).rpos != 0) = true <;> simp [timerSetPos, hc, setPosValues]
+  · rw [hr 4 (by omega)]
+    by_cases hc : ((n.peers 4).connected && (n.peers 4).rpos != 0) = true <;> simp [timerSetPos, hc, setPosValues]
+  · rw [hr 5 (by omega)]
+    by_cases hc : ((n.peers 5).connected && (n.peers 5).rpos != 0) = true <;> simp [timerSetPos, hc, setPosValues]
 
 /-- **confirmation_counterexample.**  One logged event, nothing ever received from peer A (remote position 0):
     the model's ReplayLog queues SetLogPosition 1000002 s — the name of the file it replays — and the clause
@@ -336,11 +343,47 @@ theorem premature_confirmation_counterexample :
     -- X's queue handled first: Y's position for X is X's file name, and Y replays nothing
     (y'.lpos = 1000002000000) ∧ (msgsOf (y'.replayOut vis) = []) ∧ (x.accepted (y'.replayOut vis) = []) := by decide
 
+/-- **model_positions_justified** (clause position_advance_justified on the model).  Under the same hypotheses: along
+    the model's trace an endpoint's local log position grows only by that endpoint's own confirmation, or to the
+    timestamp of an event relayed while the endpoint itself was connected (RelayMessageOne only skips — and advances —
+    endpoints that ARE connected, `relay_skipped_connected`): never for a disconnected endpoint, for which events
+    are being persisted.  Together with `replay_exact` (everything newer than the position is replayed): events
+    persisted while an endpoint was disconnected are replayed to it. -/
+theorem model_positions_justified (c : Codec) (limit : Nat) (t0 : Int) (h0 : 0 < t0) (pf sr tr : Bool) (durs : Nat → Int)
+    (ops : List Op) (hc : ClockOK t0 ops) :
+    advanceTrace (specInit (dursList durs)) (runModel c limit (initNode t0 pf sr tr durs) ops) 0 = none := by
+  suffices h : ∀ (ops : List Op) (sp : SpecSt) (n : Node) (t : Int) (i : Nat), Rel c sp n t → ClockOK t ops →
+      advanceTrace sp (runModel c limit n ops) i = none from h ops _ _ t0 0 (rel_init c t0 h0 pf sr tr durs) hc
+  intro ops
+  induction ops with
+  | nil => intro sp n t i _ _; rfl
+  | cons op rest ih =>
+    intro sp n t i hr hck
+    simp only [ClockOK] at hck
+    obtain ⟨hp, hck⟩ := hck
+    have ht : ∀ now, op.time = some now → t < now := by
+      intro now hnow; rw [hnow] at hck; exact hck.1
+    obtain ⟨sp', h1, h2⟩ := step_meets_spec c limit sp n t op hr hp ht
+    simp only [runModel]
+    rw [advanceTrace_append _ sp sp' _ i h1 (step_advance c limit sp n t op hr hp)]
+    apply ih sp' _ (op.time.getD t) _ h2
+    cases hnow : op.time with
+    | none => rw [hnow] at hck; exact hck
+    | some now => rw [hnow] at hck; exact hck.2
+
+/-- The clause rejects a position raised for a disconnected endpoint by a relayed event (the seeded reordering of the
+    "zone already has it" test before the "endpoint is disconnected" test), accepts it for a connected one. -/
+example : advanceOk { (specInit []) with conn := [false, true, false, false, false, false] }
+    ⟨.relay 50 7 (some 1) none none, [0, 0, 0, 0, 0, 0, 50, 0, 0, 0, 0, 0]⟩ = false := by decide
+example : advanceOk { (specInit []) with conn := [false, true, false, true, false, false] }
+    ⟨.relay 50 7 (some 1) none none, [0, 0, 0, 0, 0, 0, 50, 0, 0, 0, 0, 0]⟩ = true := by decide
+
 /-- The hypotheses are satisfiable on a non-trivial history: two events while A is away, a rotation, a clean-up,
     A reconnects and is replayed to, acknowledges, the sender crashes and restarts, B reconnects. -/
 example : ClockOK 1000000
     [.relay 1000001 1 none, .relay 1000002 2 (some 1), .rotate 3000000, .relay 3000001 3 (some 4), .timer 9000000,
-     .conn 0, .replay 9000001 0, .ack 0 2000000, .recv 0 5, .crashStart 9500000, .conn 1, .replay 9500001 1] := by
+     .conn 0, .replay 9000001 0, .ack 0 2000000, .recv 0 5, .crashStart 9500000 true false, .conn 1, .relay 9500001 4 (some 1),
+     .conn 3, .replay 9500002 3, .conn 5, .replay 9500003 5] := by
   simp [ClockOK, Op.peerOk, Op.time]
 
 /-- The spec predicate is not vacuous: it rejects a replay that omits a logged, unconfirmed event, and one
